@@ -1,6 +1,7 @@
 """C06 Incompatibility constraints are enforced and never over-prune - structural clauses."""
 import ast
 
+from ..rules.match import FnText
 from ..model import AnalysisError, norm
 from ..cfg import build_cfg
 from ..astutil import short, call_name
@@ -115,13 +116,13 @@ def handlers(ctx, rule='A9e'):
                        'removed nodes, or records infeasibility', detail)
     # marker transfer: the edges of the error become added edges (so that `feasible` sees them)
     fn = ctx.fn(f'{CHOICES}:get_mod_apply_selection_choice')
-    txt = ' '.join(norm(s) for s in fn.body)
+    txt = FnText(ctx, fn)
     ok = 'added_edges |= e.edges' in txt and 'removed_nodes |= e.removed_nodes' in txt
     ctx.ob(rule, fkey(fn, rule, 'conflict-becomes-marker-edges'), ok, fn.where,
            'on a conflict while applying a choice the conflicting edges are *added* to the derived graph (they '
            'make it infeasible) and the nodes removed so far stay removed', '')
     f2 = ctx.fn(f'{INFL}._create_influence_matrix')
-    txt = ' '.join(norm(s) for s in f2.body)
+    txt = FnText(ctx, f2)
     ok = 'if not opt_is_feasible' in txt and 'matrix[i_opt, i_opt] = Diag.INFEASIBLE_OPTION.value' in txt
     ctx.ob(rule, fkey(f2, rule, 'infeasible-option-flag'), ok, f2.where,
            'an option whose application raises a conflict is flagged INFEASIBLE_OPTION on the matrix diagonal', '')
@@ -131,7 +132,7 @@ def handlers(ctx, rule='A9e'):
 def removal_shape(ctx, rule='A5r'):
     fn = ctx.fn(f'{INCOMP}:get_mod_nodes_remove_incompatibilities')
     cfg = build_cfg(fn)
-    txt = ' '.join(norm(s) for s in fn.body)
+    txt = FnText(ctx, fn)
     both = [n for n in cfg.nodes if n.kind == 'test' and isinstance(n.ast, ast.BoolOp) and
             isinstance(n.ast.op, ast.And) and norm(n.ast).count('in confirmed_nodes') == 2]
     ok = bool(both) and any('infeasible' in norm(m.ast) and 'add' in norm(m.ast) for m, lab in both[0].succ
@@ -161,7 +162,7 @@ def removal_shape(ctx, rule='A5r'):
            'if a node that necessarily derives the incompatible node is itself confirmed, the graph is in '
            'conflict (raise)', '')
     add = ctx.fn(f'{INCOMP}:add_incompatibility_constraint')
-    t2 = ' '.join(norm(s) for s in add.body)
+    t2 = FnText(ctx, add)
     ok = 'itertools.permutations(nodes, 2)' in t2 and 'EdgeType.INCOMPATIBILITY' in t2
     ctx.ob(rule, fkey(add, rule, 'stored-in-both-directions'), ok, add.where,
            'an incompatibility constraint over a node set is stored as INCOMPATIBILITY edges for every ordered '
